@@ -195,6 +195,7 @@ func RunHarnesses(l *Loaded, fns []*ssa.Function, cfg RunConfig) (map[string]*Ha
 				for _, pk := range cfg.InitPkgs {
 					in.RunInit(pk)
 				}
+				in.InitOSFiles()
 				in.MaxSteps = saved
 			}()
 			if res.err != nil {
@@ -423,6 +424,7 @@ func NewConcreteInterp(l *Loaded, cfg RunConfig) (*Interp, func(), error) {
 		for _, pk := range cfg.InitPkgs {
 			in.RunInit(pk)
 		}
+		in.InitOSFiles()
 		in.MaxSteps = saved
 	}()
 	if ierr != nil {
